@@ -178,4 +178,39 @@ theorem lastBinding_sorted {V : Type} (l : List (Nat × V)) (h : SMap.Sorted l) 
     · simp only [hk, if_false]
       cases SMap.get? t k <;> rfl
 
+theorem applyNodeF_nodup (nu : NodeUpd) (hn : IMap.Nodup nu) (p : Nat) (f : PF) (k : Nat) :
+    applyNodeF f p nu k = match IMap.get? nu p with | some u => applyPUpdF f u k | none => f k := by
+  induction nu generalizing f with
+  | nil => rfl
+  | cons hd t ih =>
+    obtain ⟨p', u⟩ := hd
+    unfold IMap.Nodup at hn ih
+    rw [List.pairwise_cons] at hn
+    simp only [applyNodeF, IMap.get?_cons]
+    rw [ih hn.2]
+    by_cases hp : p' = p
+    · subst hp
+      simp only [if_true]
+      rw [IMap.get?_eq_none_of_notin t p' (fun x hx e => hn.1 x hx e.symm)]
+    · have : ¬ p = p' := fun e => hp e.symm
+      simp only [hp, this, if_false]
+
+theorem applyF_nodup (us : DbUpdates) (hn : IMap.Nodup us) (pk : PKey) (f : PF) (k : Nat) :
+    applyF f pk us k
+      = match IMap.get? us pk.1 with | some nu => applyNodeF f pk.2 nu k | none => f k := by
+  induction us generalizing f with
+  | nil => rfl
+  | cons hd t ih =>
+    obtain ⟨n, nu⟩ := hd
+    unfold IMap.Nodup at hn ih
+    rw [List.pairwise_cons] at hn
+    simp only [applyF, IMap.get?_cons]
+    rw [ih hn.2]
+    by_cases hp : n = pk.1
+    · subst hp
+      simp only [if_true]
+      rw [IMap.get?_eq_none_of_notin t pk.1 (fun x hx e => hn.1 x hx e.symm)]
+    · have : ¬ pk.1 = n := fun e => hp e.symm
+      simp only [hp, this, if_false]
+
 end Radix.SubstateDb
